@@ -101,6 +101,9 @@ pub struct DecHistory {
     pub fill: u8,
     /// start offset of source and destination inside their backing buffers
     pub align: usize,
+    /// when non-empty, call k uses sink `sinks_per_call[k % len]` instead of `sink`: one stream
+    /// decoded through a mixture of the UTF-8, UTF-16, &mut str and String methods
+    pub sinks_per_call: Vec<Sink>,
 }
 
 impl DecHistory {
@@ -116,6 +119,7 @@ impl DecHistory {
             caps: Vec::new(),
             fill: 0xA5,
             align: 0,
+            sinks_per_call: Vec::new(),
         }
     }
     pub fn to_json(&self) -> Value {
@@ -131,6 +135,7 @@ impl DecHistory {
             "caps": self.caps.iter().map(|c| match *c { CAP_QUERY => json!("query"), CAP_QUERY_EXACT => json!("query-exact"), CAP_AMPLE => json!("ample"), n => json!(n) }).collect::<Vec<_>>(),
             "fill": self.fill,
             "align": self.align,
+            "sinks_per_call": self.sinks_per_call.iter().map(|s| s.name()).collect::<Vec<_>>(),
         })
     }
     pub fn from_json(v: &Value) -> Option<DecHistory> {
@@ -156,7 +161,15 @@ impl DecHistory {
                 .collect(),
             fill: v.get("fill")?.as_u64()? as u8,
             align: v.get("align")?.as_u64()? as usize,
+            sinks_per_call: v.get("sinks_per_call").and_then(|a| a.as_array()).map(|a| a.iter().filter_map(|x| x.as_str()).map(Sink::from_name).collect()).unwrap_or_default(),
         })
+    }
+    pub fn sink_for_call(&self, k: usize) -> Sink {
+        if self.sinks_per_call.is_empty() {
+            self.sink
+        } else {
+            self.sinks_per_call[k % self.sinks_per_call.len()]
+        }
     }
     pub fn hash(&self) -> u64 {
         let mut h = crate::fw::fnv(&self.stream);
@@ -167,6 +180,9 @@ impl DecHistory {
         h = crate::fw::mix(h, 0xFFFF + self.last_on_empty as u64);
         for c in &self.caps {
             h = crate::fw::mix(h, (*c as u64).wrapping_add(7));
+        }
+        for s in &self.sinks_per_call {
+            h = crate::fw::mix(h, 0x5150 + *s as u64);
         }
         h
     }
@@ -216,6 +232,18 @@ impl DecHistory {
             let mut h = self.clone();
             h.align = 0;
             out.push(h);
+        }
+        if !self.sinks_per_call.is_empty() {
+            let mut h = self.clone();
+            h.sinks_per_call.clear();
+            out.push(h);
+            for i in 0..self.sinks_per_call.len() {
+                let mut h = self.clone();
+                h.sinks_per_call.remove(i);
+                if !h.sinks_per_call.is_empty() {
+                    out.push(h);
+                }
+            }
         }
         for i in 0..n {
             if self.stream[i] != b'a' && self.stream[i] < 0x80 {
@@ -277,6 +305,9 @@ pub struct DecOutcome {
     pub calls: Vec<Call>,
     pub out8: Vec<u8>,
     pub out16: Vec<u16>,
+    /// scalar values in call order (what a mixed-sink history denotes); None once a call wrote
+    /// something that is not whole-character text
+    pub mixed: Option<Vec<u32>>,
     /// absolute (start, len) of each Malformed (raw mode)
     pub errors: Vec<(usize, usize)>,
     /// raw (len, after) pairs as reported (raw mode)
@@ -289,6 +320,14 @@ pub struct DecOutcome {
 
 impl DecOutcome {
     /// scalar values of the concatenated output, None if it is not well-formed
+    /// scalars of the whole output: in call order for mixed-sink histories
+    pub fn scalars_of(&self, h: &DecHistory) -> Option<Vec<u32>> {
+        if h.sinks_per_call.is_empty() {
+            self.scalars(h.sink)
+        } else {
+            self.mixed.clone()
+        }
+    }
     pub fn scalars(&self, sink: Sink) -> Option<Vec<u32>> {
         if sink.is_utf16() {
             let mut v = Vec::with_capacity(self.out16.len());
@@ -682,7 +721,7 @@ impl DecDriver {
         bounds.push(n);
         let nchunks = bounds.len() - 1;
         let total_chunks = nchunks + if h.last_on_empty { 1 } else { 0 };
-        let ample = if h.sink.is_utf16() { n + 16 } else { 3 * n + 32 };
+        out.mixed = Some(Vec::new());
         let call_limit = 10 * (4 * n + 16) + 4 * total_chunks;
         let linear_bound = 4 * n + 16 + 2 * total_chunks;
         let mut cap_i = 0usize;
@@ -697,6 +736,8 @@ impl DecDriver {
                     break 'chunks;
                 }
                 let src = &h.stream[off..b];
+                let sink = h.sink_for_call(call_index);
+                let ample = if sink.is_utf16() { n + 16 } else { 3 * n + 32 };
                 let mut from_query = false;
                 let cap = if h.caps.is_empty() {
                     ample
@@ -705,7 +746,7 @@ impl DecDriver {
                     cap_i += 1;
                     if c == CAP_QUERY || c == CAP_QUERY_EXACT {
                         from_query = true;
-                        let q = match (h.sink.is_utf16(), h.repl) {
+                        let q = match (sink.is_utf16(), h.repl) {
                             (true, _) => dec.max_utf16_buffer_length(src.len()),
                             (false, true) => dec.max_utf8_buffer_length(src.len()),
                             (false, false) => dec.max_utf8_buffer_length_without_replacement(src.len()),
@@ -713,19 +754,37 @@ impl DecDriver {
                         if c == CAP_QUERY_EXACT {
                             q.unwrap_or(ample)
                         } else {
-                            q.unwrap_or(ample).max(h.sink.min_cap())
+                            q.unwrap_or(ample).max(sink.min_cap())
                         }
                     } else if c == CAP_AMPLE {
                         ample
                     } else {
-                        c.max(h.sink.min_cap())
+                        c.max(sink.min_cap())
                     }
                 };
                 before_call(dec, consumed);
-                let so = match self.step(dec, h.sink, h.repl, src, cap, last, h.fill, h.align, &mut out, call_index) {
+                let (l8, l16) = (out.out8.len(), out.out16.len());
+                let so = match self.step(dec, sink, h.repl, src, cap, last, h.fill, h.align, &mut out, call_index) {
                     None => break 'chunks,
                     Some(s) => s,
                 };
+                // scalars of this call, in call order
+                let mut bad = false;
+                let mut add: Vec<u32> = Vec::new();
+                match std::str::from_utf8(&out.out8[l8..]) {
+                    Ok(t) => add.extend(t.chars().map(|c| c as u32)),
+                    Err(_) => bad = true,
+                }
+                for r in char::decode_utf16(out.out16[l16..].iter().cloned()) {
+                    match r {
+                        Ok(c) => add.push(c as u32),
+                        Err(_) => bad = true,
+                    }
+                }
+                match (&mut out.mixed, bad) {
+                    (Some(m), false) => m.extend(add),
+                    _ => out.mixed = None,
+                }
                 out.calls.push(Call { src_off: off, src_len: src.len(), dst_len: cap, last, res: so.res, read: so.read, written: so.written, flag: so.flag, cap_from_query: from_query });
                 off += so.read;
                 consumed += so.read;
@@ -759,7 +818,10 @@ impl DecDriver {
                             out.errors.push((end - la, l as usize));
                         }
                         // the documented manual recovery: append U+FFFD ourselves
-                        if h.sink.is_utf16() {
+                        if let Some(m) = out.mixed.as_mut() {
+                            m.push(0xFFFD);
+                        }
+                        if sink.is_utf16() {
                             out.out16.push(0xFFFD);
                         } else {
                             out.out8.extend_from_slice("\u{FFFD}".as_bytes());
